@@ -215,21 +215,27 @@ fn unmarshal_header_field(header: &Header, cursor: &mut Cursor) -> UnmarshalResu
             _ => Err(UnmarshalError::WrongSignature),
         },
         2 => match sig {
-            signature::Type::Base(signature::Base::String) => Ok(HeaderField::Interface(
-                cursor.read_str(header.byteorder)?.to_owned(),
-            )),
+            signature::Type::Base(signature::Base::String) => {
+                let interface = cursor.read_str(header.byteorder)?;
+                crate::params::validate_interface(interface)?;
+                Ok(HeaderField::Interface(interface.to_owned()))
+            }
             _ => Err(UnmarshalError::WrongSignature),
         },
         3 => match sig {
-            signature::Type::Base(signature::Base::String) => Ok(HeaderField::Member(
-                cursor.read_str(header.byteorder)?.to_owned(),
-            )),
+            signature::Type::Base(signature::Base::String) => {
+                let member = cursor.read_str(header.byteorder)?;
+                crate::params::validate_membername(member)?;
+                Ok(HeaderField::Member(member.to_owned()))
+            }
             _ => Err(UnmarshalError::WrongSignature),
         },
         4 => match sig {
-            signature::Type::Base(signature::Base::String) => Ok(HeaderField::ErrorName(
-                cursor.read_str(header.byteorder)?.to_owned(),
-            )),
+            signature::Type::Base(signature::Base::String) => {
+                let error_name = cursor.read_str(header.byteorder)?;
+                crate::params::validate_errorname(error_name)?;
+                Ok(HeaderField::ErrorName(error_name.to_owned()))
+            }
             _ => Err(UnmarshalError::WrongSignature),
         },
         5 => match sig {
@@ -241,15 +247,19 @@ fn unmarshal_header_field(header: &Header, cursor: &mut Cursor) -> UnmarshalResu
             _ => Err(UnmarshalError::WrongSignature),
         },
         6 => match sig {
-            signature::Type::Base(signature::Base::String) => Ok(HeaderField::Destination(
-                cursor.read_str(header.byteorder)?.to_owned(),
-            )),
+            signature::Type::Base(signature::Base::String) => {
+                let destination = cursor.read_str(header.byteorder)?;
+                crate::params::validate_busname(destination)?;
+                Ok(HeaderField::Destination(destination.to_owned()))
+            }
             _ => Err(UnmarshalError::WrongSignature),
         },
         7 => match sig {
-            signature::Type::Base(signature::Base::String) => Ok(HeaderField::Sender(
-                cursor.read_str(header.byteorder)?.to_owned(),
-            )),
+            signature::Type::Base(signature::Base::String) => {
+                let sender = cursor.read_str(header.byteorder)?;
+                crate::params::validate_busname(sender)?;
+                Ok(HeaderField::Sender(sender.to_owned()))
+            }
             _ => Err(UnmarshalError::WrongSignature),
         },
         8 => match sig {
